@@ -100,19 +100,26 @@ def run(ctx):
         "factories are built as struct literals (no stack) or satisfy: a stack implies a source",
         "Convert/ConvertS with an argument that already is a gerror error return it unchanged and are not derivations (C06 covers them)",
     ]
-    ctx.obligations_or_violation()
-    tie_ok = tie_wiring(ctx)
+    rp = gl.Reporter(ctx)
+    rp.obligations()
+    if not tie_wiring(ctx):
+        # the wiring of some method no longer matches the model; the correspondence run is the
+        # search for a failing input
+        rp.defer("tie T: wiring table regenerated from gerror/gerror.go differs from GErrModel.base_wiring",
+                 getattr(ctx, "tie_broken", ""), "tie")
     binp, log = ctx.build_harness("c15")
     if not binp:
-        gl.fail(ctx, "harness build against the current tree", log, "build")
+        rp.defer("harness build against the current tree", log, "build")
+        rp.flush()
         return
     quick = ctx.tier == "quick"
     corpus_inputs = gl.load_corpus("C15")
     runs = [("corpus", ["-mode", "corpus"]),
-            ("random", ["-mode", "random", "-n", 450 if quick else 8000]),
-            ("nearmiss", ["-mode", "nearmiss", "-n", 250 if quick else 4000]),
+            ("random", ["-mode", "random", "-n", 300 if quick else 8000]),
+            ("nearmiss", ["-mode", "nearmiss", "-n", 150 if quick else 4000]),
             ("sweep", ["-mode", "sweep", "-n", 1 if quick else 4]),
-            ("exotic", ["-mode", "exotic"])]
+            ("exotic", ["-mode", "exotic"]),
+            ("shapes", ["-mode", "shapes"])]
     terms, jsons, err = vlib.harness_cases(ctx, binp, runs)
     if not err and corpus_inputs:
         t2, j2, err = gl.run_replay(ctx, binp, corpus_inputs, "corpusdir")
@@ -122,46 +129,31 @@ def run(ctx):
         conc, t3, j3, err = run_conc(ctx, binp, quick)
         terms, jsons = terms + t3, jsons + j3
     if err:
-        gl.fail(ctx, "harness run", err, "harness")
+        rp.defer("harness run", err, "harness")
+        rp.flush()
         return
-    for j in jsons:
-        j["steps"] = j.get("steps") or []
-        j["obs"] = j.get("obs") or []
-    bad, nt_coq, err = gl.judge(ctx, CASE_T, JUDGE, terms, CANARY, shard=250 if quick else 500,
-                                nontrivial="c15_nontrivial")
-    if err:
-        gl.fail(ctx, "in-kernel evaluation of the correspondence", err, "coq_eval")
+    bad, nt_coq = judge_and_report(ctx, rp, binp, terms, jsons, quick, "cases")
+    if bad is None:
+        rp.flush()
         return
-    found_input = False
-    for i, code in bad:
-        j = jsons[i]
-        if code == 3:
-            gl.fail(ctx, "harness produced a case outside the property's domain", json.dumps(j)[:2000], "harness")
-            continue
-        if ctx.nreplay < 5:
-            j = gl.minimise_chain(ctx, binp, CASE_T, JUDGE, CANARY, j, code)
-            gl.write_corpus_hit("C15", {"fac": j["fac"], "steps": j["steps"]})
-        rep = {"case": j,
-               "verdict": {1: "observation violates the composition laws (closed-form spec)",
-                           2: "observation satisfies the laws but differs from the Coq model"}[code],
-               "replay_cmd": "./check C15 --replay <this file>"}
-        ctx.report(rep, features(j, code), failing_input=(code == 1))
-        found_input = found_input or code == 1
-    if not tie_ok and ctx.cov.get("tie_T") == "BROKEN":
-        # the wiring of some method no longer matches the model; the correspondence run above is
-        # the search for a failing input
-        ctx.report({"unchecked": "tie T: wiring table regenerated from gerror/gerror.go differs from GErrModel.base_wiring",
-                    "detail": getattr(ctx, "tie_broken", "")[-2500:],
-                    "failing_inputs_above": found_input},
-                   {"kind": "tie"}, failing_input=False)
     if conc is not None:
         if conc.get("mismatches") or conc.get("factory_changed") or conc.get("races"):
-            ctx.report({"concurrent_run": conc,
+            rp.failing({"concurrent_run": conc,
                         "verdict": "concurrent derivation differs from sequential derivation, changed a factory, or raced",
                         "replay_cmd": "./check C15 --tier %s" % ctx.tier},
                        {"kind": "conc", "races": bool(conc.get("races")),
                         "mismatches": bool(conc.get("mismatches")),
-                        "factory_changed": bool(conc.get("factory_changed"))}, failing_input=True)
+                        "factory_changed": bool(conc.get("factory_changed"))})
+    if rp.need_widened():
+        # something is unchecked but no failing input yet: widen the search before saying so
+        wruns = [("wrandom", ["-mode", "random", "-n", 1000 if quick else 12000, "-seed", ctx.seed + 7919]),
+                 ("wnearmiss", ["-mode", "nearmiss", "-n", 500 if quick else 6000, "-seed", ctx.seed + 7919]),
+                 ("wsweep", ["-mode", "sweep", "-n", 2 if quick else 4])]
+        wt, wj, err = vlib.harness_cases(ctx, binp, wruns)
+        if not err:
+            wbad, _ = judge_and_report(ctx, rp, binp, wt, wj, quick, "widened", only_v1=True)
+            ctx.cov["widened_run"] = {"cases": len(wj), "bad": len(wbad or [])}
+    rp.flush()
     nt = [j for j in jsons if nontrivial(j)]
     ctx.cov.update({
         "evaluations": len(jsons),
@@ -174,7 +166,11 @@ def run(ctx):
                 "marks, all 17 Unicode white-space code points, near-miss code points that are not white "
                 "space (U+200B, U+FEFF, U+001C..) and format verbs with matching/missing/extra operands; "
                 "non-trivial = some step passes a non-blank extension, a tag, a source, a foreign error or "
-                "takes a stack; distinct by (factory, steps)",
+                "takes a stack; distinct by (factory, steps). Mode `shapes` adds deterministic families: every one of "
+                "the 25 white-space code points as a whole/padding extension and as base message, near-space code "
+                "points, format verbs inside tags/sources/base message, empty tag/source arguments, every ordered "
+                "pair of the 8 source-carrying methods (first wins), each of the 9 stack-taking methods followed by "
+                "Base and by every method, factories cloned from another factory (FactoryOf on a derived error)",
         "exhaustive": False,
         "exhaustive_note": "finite sub-sweep: every ordered pair of the 19 methods as a two-step chain with fixed non-empty "
                            "arguments, from 1 (quick) / all 4 (thorough) factory presets (361 / 1444 chains); the chain "
@@ -189,6 +185,34 @@ def run(ctx):
     })
     ctx.log("correspondence: %d chains, %d steps, %d disagreement(s); concurrent: %s" % (
         len(jsons), ctx.cov["steps_compared"], len(bad), conc))
+
+
+def judge_and_report(ctx, rp, binp, terms, jsons, quick, tag, only_v1=False):
+    """judge the cases; report verdict-1 cases (minimised) first, defer the rest"""
+    for j in jsons:
+        j["steps"] = j.get("steps") or []
+        j["obs"] = j.get("obs") or []
+    bad, nt_coq, err = gl.judge(ctx, CASE_T, JUDGE, terms, CANARY, shard=250 if quick else 500,
+                                nontrivial="c15_nontrivial", tag=tag)
+    if err:
+        rp.defer("in-kernel evaluation of the correspondence", err, "coq_eval")
+        return None, 0
+    for i, code in sorted(bad, key=lambda b: (b[1] != 1, b[0])):
+        j = jsons[i]
+        if code == 1:
+            if ctx.nreplay < 5:
+                j = gl.minimise_chain(ctx, binp, CASE_T, JUDGE, CANARY, j, code)
+            rep = {"case": j, "verdict": "observation violates the composition laws (closed-form spec)",
+                   "replay_cmd": "./check C15 --replay <this file>"}
+            if rp.failing(rep, features(j, code)) == "violation" and rp.nviol <= 5:
+                gl.write_corpus_hit("C15", {"fac": j["fac"], "steps": j["steps"]})
+        elif not only_v1:
+            what = ("harness produced a case outside the property's domain (or its derived-source oracle differs "
+                    "from the model's rendering of the frame name)" if code == 3 else
+                    "correspondence: observation satisfies the laws but differs from the Coq model")
+            if len(rp.pending) < 8:
+                rp.defer(what, json.dumps(j)[:2500], "harness" if code == 3 else "model_mismatch", {"case": j})
+    return bad, nt_coq
 
 
 def run_conc(ctx, binp, quick):
